@@ -87,6 +87,22 @@ class _Canon(ast.NodeTransformer):
         n.values = [self._truth(v) for v in n.values]
         return n
 
+    # ---- position counters: zip(itertools.count([k]), X) / zip(range(len(X)), X)  ->  enumerate(X[, k])
+    def visit_Call(self, n):
+        self.generic_visit(n)
+        if isinstance(n.func, ast.Name) and n.func.id == "zip" and len(n.args) == 2 and not n.keywords and not any(isinstance(a, ast.Starred) for a in n.args):
+            c, x = n.args
+            new = None
+            if isinstance(c, ast.Call) and not c.keywords and ast.unparse(c.func) == "itertools.count" and len(c.args) <= 1:
+                new = [x] + list(c.args)
+            elif isinstance(c, ast.Call) and not c.keywords and isinstance(c.func, ast.Name) and c.func.id == "range" and len(c.args) == 1 \
+                    and isinstance(c.args[0], ast.Call) and isinstance(c.args[0].func, ast.Name) and c.args[0].func.id == "len" and len(c.args[0].args) == 1 \
+                    and ast.dump(c.args[0].args[0]) == ast.dump(x) and isinstance(x, (ast.Name, ast.Attribute)):
+                new = [x]
+            if new is not None:
+                return ast.copy_location(ast.Call(func=ast.copy_location(ast.Name(id="enumerate", ctx=ast.Load()), n.func), args=new, keywords=[]), n)
+        return n
+
     def visit_While(self, n):
         self.generic_visit(n)
         n.test = self._truth(n.test)
